@@ -86,7 +86,9 @@ func normSeen(s hx.Seen) string {
 	fr := "none"
 	if len(s.Header["Transfer-Encoding"]) > 0 {
 		fr = "chunked"
-	} else if s.CL >= 0 {
+	} else if _, ok := s.Header["Content-Length"]; ok || (s.CL >= 0 && !s.IsResp) {
+		// a response without the field has ContentLength 0 when its status excludes a body, -1 otherwise, in both
+		// implementations; the promoted length is compared when the field is there
 		fr = "cl" + strconv.FormatInt(s.CL, 10)
 	}
 	if s.IsResp {
@@ -134,7 +136,8 @@ func (c *countReader) Read(p []byte) (int, error) {
 
 // refParse runs net/http over the stream: normal forms of the messages it extracts, the offset after each, and
 // whether it stopped with an error (other than a clean EOF at a message boundary).
-func refParse(stream []byte, client bool) (forms []string, offs []int, bad string) {
+// headFirst: the first response answers a HEAD request (the request is context the bytes do not carry).
+func refParse(stream []byte, client, headFirst bool) (forms []string, offs []int, bad string) {
 	cr := &countReader{r: bytes.NewReader(stream)}
 	br := bufio.NewReaderSize(cr, 4096)
 	for {
@@ -142,7 +145,11 @@ func refParse(stream []byte, client bool) (forms []string, offs []int, bad strin
 			return
 		}
 		if client {
-			res, err := http.ReadResponse(br, nil)
+			var req *http.Request
+			if headFirst && len(forms) == 0 {
+				req = &http.Request{Method: "HEAD"}
+			}
+			res, err := http.ReadResponse(br, req)
 			if err != nil {
 				return forms, offs, "readresponse: " + err.Error()
 			}
@@ -189,6 +196,8 @@ var insideWording = map[string]bool{
 	// RFC 7230 4.1.2/4.4: the Trailer field announces what MAY follow; nbhttp requires every announced trailer exactly
 	// once with a non-empty value and rejects everything else (known finding HTTP-TRAILER-STRICT)
 	"trailer-declared-missing": true, "trailer-empty-value": true, "trailer-undeclared": true, "trailer-sent-twice": true,
+	// RFC 7230 3.3.3 rule 1: responses that end with their header section whatever Content-Length / Transfer-Encoding say
+	"resp-304-with-framing": true, "resp-1xx-204-with-framing": true, "resp-head-with-framing": true,
 }
 
 func exec(e *lp.Exec) {
@@ -305,7 +314,7 @@ func exec(e *lp.Exec) {
 				nbForms = append(nbForms, normSeen(s))
 			}
 			// 3. the reference
-			refForms, refOffs, refBad := refParse(stream, client)
+			refForms, refOffs, refBad := refParse(stream, client, strings.HasPrefix(nclass, "resp-head-"))
 			nb := strings.Join(nbForms, ";")
 			ref := strings.Join(refForms, ";")
 			e.Count("messages", "nbio-delivered:"+strconv.Itoa(len(a.R.Seen)))
